@@ -261,9 +261,19 @@ def from_sre(pattern: str, flags: int = 0, mode: Optional[str] = None) -> Rx:
         return conv(tree)
     # ---- subject languages: the set of whole subject strings on which re.<mode>(pattern, subject) succeeds.
     # Supported around the core: a leading width-1 lookbehind, a trailing width-1 lookahead, ^ / \\A first, $ / \\Z last.
-    items = list(tree)
     sigma = Rep(Chars(CharSet([(0, 0x10FFFF)])), 0, None)
     empty = Chars(CharSet())
+    return _subject_language(list(tree), mode, pattern, conv, conv_in, cat, sc, sigma, empty)
+
+
+def _subject_language(items: List[Any], mode: str, pattern: str, conv: Any, conv_in: Any, cat: Any, sc: Any, sigma: Rx, empty: Rx) -> Rx:
+    """The set of whole subject strings on which re.<mode>(pattern, subject) succeeds, for a pattern whose top level is a
+    sequence `items`; a top-level alternation is the union of its branches (each branch may carry its own leading
+    look-behind / trailing look-ahead / anchors)."""
+    if len(items) == 1 and items[0][0] is sc.BRANCH:
+        return Alt(*[_subject_language(list(b), mode, pattern, conv, conv_in, cat, sc, sigma, empty) for b in items[0][1][1]])
+    if len(items) == 1 and items[0][0] is sc.SUBPATTERN and items[0][1][3] is not None and len(list(items[0][1][3])) == 1 and list(items[0][1][3])[0][0] is sc.BRANCH:
+        return _subject_language(list(items[0][1][3]), mode, pattern, conv, conv_in, cat, sc, sigma, empty)
 
     def one_char(sub: Any) -> Optional[CharSet]:
         sub = list(sub)
